@@ -1154,3 +1154,13 @@ def _m89():
     _patch_source(bi, '_uninstall_files', """            return [dst.path.append(i.path.relpath(src.path)) for i in
                     iterate(src.files)]""", """            return [i.path for i in iterate(dst.files)]
 """)
+
+
+@mutant('toolchain_install_dirs_lazy')
+def _m90():
+    # toolchain.install_dirs: only an explicit regeneration skips the assignment
+    from bfg9000.builtins import toolchain as bt
+    from bfg9000.build_inputs import Regenerating
+    bt.Regenerating = Regenerating
+    _patch_source(bt, 'install_dirs', "if context.regenerating:",
+                  "if context.regenerating == Regenerating.true:")
